@@ -132,15 +132,19 @@ CLAIMED = {
    text="Theorems (Props/C04.v): for every reachable log and every pointer count the appended entry names exactly the current heads "
         "(each once), carries the writer's key as clock id, has a time strictly greater than every entry of the log, becomes the single "
         "head; its skip references are entries of the log (all of which lie in its causal past), disjoint from next, duplicate free, "
-        "at most log2(pointer count)+2. Tied by field-by-field comparison of every appended entry with the model and direct monitors, "
-        "incl. wide unbalanced forks with more heads than pointers; the concurrent half is C13.",
+        "at most log2(pointer count)+2; an append that returned is reachable from every later successful append on that log "
+        "(C04_appends_form_a_chain). Tied by field-by-field comparison of every appended entry with the model and direct monitors, "
+        "incl. wide unbalanced forks with more heads than pointers, logs with seeded clocks around 2^53 and 2^62 and logs reloaded "
+        "under each ordering; the concurrent half is C13.",
    technique="Coq proof (log invariant, traversal subset and power-of-two loop bound) + differential correspondence vs Go", design="6/C04"),
  "C17": dict(
    text="Theorems (Props/C17.v): along every well-formed history over one shared store every block is written after all blocks it links "
         "to, so every prefix of the write trace (every crash point) is causally closed; every entry of every replica, its predecessors "
-        "and references, and the heads of every manifest are stored, and the store only grows. With C09's bridge theorem every "
-        "returned head/manifest loads to the state at publication. Tied by per-write closure monitors and store-trace correspondence; "
-        "the effect order inside Append (block write before publication) is also what the model's step encodes.",
+        "and references, and the heads of every manifest are stored, and the store only grows; an append that returns an entry has "
+        "written its block, and an append or publication whose block write the store refuses changes nothing but the clock. With "
+        "C09's bridge theorem every returned head/manifest loads to the state at publication. Tied by per-write closure monitors and "
+        "store-trace correspondence over histories that include appends/publications during injected store outages and pinned "
+        "appends; the effect order inside Append (block write before publication) is also what the model's step encodes.",
    technique="Coq proof (store-order invariant over histories) + per-write closure monitor and differential correspondence vs Go", design="6/C17"),
  "C15": dict(
    text="Theorems (Props/C15.v): for every reachable log and option combination the iterator never panics, closes the channel on every "
@@ -156,9 +160,14 @@ CLAIMED = {
    text="Theorems (Props/C16.v): for any two replicas of any well-formed history Join never panics for any bound (difference and "
         "traversal fuel suffice); with a bound n >= 0 and an accepted unbounded merge under a total ordering, the result holds "
         "exactly the last min(n,total) entries of the unbounded merge's linearisation, heads = the unreferenced entries among them, "
-        "and a bound >= total keeps everything. Tie: bounded joins with bounds 0..total+3 in random histories compared with the "
-        "model and with an oracle that replays the history with the unbounded join. Known finding K3: the early return for "
-        "self/foreign-id joins skips the trimming.",
+        "and a bound >= total keeps everything, and its reverse next index forgets the dropped entries. For EVERY history whose "
+        "joins carry any bounds (pwf: only hash-consistent appends are required) every replica satisfies the partial-log invariant: "
+        "heads = exactly the unreferenced entries (non-empty when the log is), exact next index, clock >= entries, Values() complete, "
+        "duplicate free, sorted and causal, and no merge with any bound panics. Tie: bounded joins with bounds 0..total+3 in random "
+        "histories compared with the model and with an oracle that replays the history with the unbounded join; every history is "
+        "checked against pwf; a truncated replica and a fresh log made from its entries must merge identically (twin probe); "
+        "bounded merges into gap-loaded logs. Known finding K3: the early return for self/foreign-id joins skips the trimming. "
+        "Found and repaired: stale next index after truncation (27edacc).",
    technique="Coq proof (bounded join over the values specification; fuel sufficiency) + replay-oracle correspondence vs Go", design="6/C16"),
 }
 NOT_YET = "machinery for this property is still being built in this round (see DESIGN.md section 10); not claimed yet"
